@@ -170,6 +170,25 @@ Theorem C02_interleaving_changes_nothing :
 Proof. exact interleaving_changes_nothing. Qed.
 Print Assumptions C02_interleaving_changes_nothing.
 
+(* The forced STARTTLS attempt on the first features list is a matter of each
+   session's own history, also when sessions share one Negotiator value: for
+   every schedule, the `first` argument of a session's next negotiateFeatures
+   call is true exactly when that session has made no such call yet.  Together
+   with C02_interleaving_changes_nothing (a finished session has the result it
+   has alone) the clauses proved for one session hold for every session of
+   every history.  Read from negotiator.go on every run: the closure returned
+   by negotiator() assigns to none of its captured variables but cfg. *)
+Theorem C02_first_list_per_session :
+  (forall (sched : list nat) fv (ss : list sess),
+     Forall (fun s => match is_prog s with
+                      | Running l => next_first l = Nat.eqb (l_calls l) 0
+                      | Done _ => True
+                      end)
+            (snd (sched_run sched fv (map (start_sess fv) ss)))) /\
+  forallb (fun v => bytes_eqb v (str "cfg")) negotiator_writes = true.
+Proof. exact (conj first_list_per_session negotiator_closure_writes_only_cfg). Qed.
+Print Assumptions C02_first_list_per_session.
+
 (* At any granularity: no sequence of primitive steps of any model function
    writes the captured variable; and, read from starttls.go on every run, the
    Negotiate closure of StartTLS assigns to none of the variables it captures. *)
